@@ -1,0 +1,66 @@
+//go:build verif
+
+package filecache
+
+import (
+	"io"
+	"os"
+	"strconv"
+	"strings"
+	"syscall"
+)
+
+// This file is a verification hook (build tag "verif"): it lets a test harness kill the
+// process at a named point inside fileCache.Add, emulating a crash. It is selected by the
+// environment variable VERIF_CRASHPOINT=<name>[@n] and is inert when the variable is unset.
+
+func crashSpec() (name string, n int64) {
+	spec := os.Getenv("VERIF_CRASHPOINT")
+	if spec == "" {
+		return "", 0
+	}
+	if i := strings.IndexByte(spec, '@'); i >= 0 {
+		n, _ = strconv.ParseInt(spec[i+1:], 10, 64)
+		return spec[:i], n
+	}
+	return spec, 0
+}
+
+// crashPoint kills the process with SIGKILL (no deferred functions, no flushing) when the
+// named point is the selected one.
+func crashPoint(name string) {
+	if want, _ := crashSpec(); want != "" && want == name {
+		_ = syscall.Kill(os.Getpid(), syscall.SIGKILL)
+		select {} // wait for the signal to be delivered.
+	}
+}
+
+// crashReader wraps the content copied into the temporary file: when the selected point is
+// "mid_copy@n" it lets exactly n bytes through and then kills the process.
+func crashReader(r io.Reader) io.Reader {
+	if want, n := crashSpec(); want == "mid_copy" {
+		return &midCopyReader{r: r, left: n}
+	}
+	return r
+}
+
+type midCopyReader struct {
+	r    io.Reader
+	left int64
+}
+
+func (m *midCopyReader) Read(p []byte) (int, error) {
+	if m.left <= 0 {
+		crashPoint("mid_copy")
+	}
+	if int64(len(p)) > m.left {
+		p = p[:m.left]
+	}
+	n, err := m.r.Read(p)
+	m.left -= int64(n)
+	if err == io.EOF {
+		// the content is shorter than n: crash at its end.
+		crashPoint("mid_copy")
+	}
+	return n, err
+}
